@@ -309,6 +309,15 @@ func c07(c *orch.Ctx) (*report.Result, error) {
 	pairsCompared, componentsCompared := 0, 0
 	return runSpecProp(c, specProp{
 		id: "C07", nQuick: 70, nThorough: 600, floor: 0.6,
+		replayCompanion: func(p *synth.Project) *synth.Project {
+			if !p.HasFeature("usage-site-decorations") {
+				return nil
+			}
+			q, touched := c07Strip(p, p.Name+"s")
+			twins[q.Name] = p.Name
+			touchedBy[q.Name] = touched
+			return q
+		},
 		gen: func(cx *orch.Ctx, i int) *synth.Project {
 			if i%4 == 3 && last != nil {
 				q, touched := c07Strip(last, fmt.Sprintf("p%04ds", i))
